@@ -4,6 +4,7 @@
 // of secrets involved.  Shared by C14 (SAFE_DATA), C19 (ABI) and C20 (hidden inputs).
 #pragma once
 #include "aes_engine.hpp"
+#include <functional>
 #include <unordered_set>
 
 namespace aops {
@@ -154,6 +155,10 @@ struct Built {
         int nargs = 0;
         std::string exitclass;
         Secrets S;
+        // C20: byte ranges that are declared outputs of the observed call, and a continuation that exercises the
+        // "later behaviour" of the objects the call produced (its results are appended to outs by the continuation)
+        std::vector<std::pair<uint8_t *, size_t>> outs;
+        std::function<bool()> continuation;
 };
 
 // returns 0 = call prepared, 1 = skip (entry absent), 2 = a failure was reported, 3 = a known finding was hit (suppressed)
@@ -188,12 +193,17 @@ static inline int build(const Case &c, Ops &O, guard::Arena &A, Built &B, pbt::C
                         args[0] = (uint64_t) kb; args[1] = (uint64_t) enc; args[2] = (uint64_t) dec;
                         nargs = 3;
                         exitclass = "keyexp";
+                        B.outs.emplace_back(enc, 16 * (e->bits / 32 + 7));
+                        B.outs.emplace_back(dec, 16 * (e->bits / 32 + 7));
                 } else {
                         uint64_t len = 16 * (c.len ? c.len : 1);
                         auto sched = e->op == ae::cbc::OP_DEC ? ra.dec_schedule() : ra.enc_schedule();
                         uint8_t *keys = A.alloc("keys", sched.size(), 16, guard::END);
                         memcpy(keys, sched.data(), sched.size());
-                        uint8_t *iv = A.alloc("iv", 16, 16, guard::END, 3), *in = A.alloc("in", len, 1, guard::END, 4), *out = A.alloc("out", len, 1, guard::END, 5);
+                        uint8_t *iv = A.alloc("iv", 16, 16, guard::END), *in = A.alloc("in", len, 1, guard::END), *out = A.alloc("out", len, 1, guard::END, 5);
+                        pbt::expand(c.seed + 7, iv, 16);
+                        pbt::expand(c.seed + 8, in, len);
+                        B.outs.emplace_back(out, len);
                         args[0] = (uint64_t) in; args[1] = (uint64_t) iv; args[2] = (uint64_t) keys; args[3] = (uint64_t) out; args[4] = len;
                         nargs = 5;
                         exitclass = "blocks%16=" + std::to_string((len / 16) % 16);
@@ -239,16 +249,73 @@ static inline int build(const Case &c, Ops &O, guard::Arena &A, Built &B, pbt::C
                         args[0] = (uint64_t) kb; args[1] = (uint64_t) kd;
                         nargs = 2;
                         exitclass = "pre";
+                        {
+                                // later behaviour of the key data: a one-shot encryption with it
+                                uint8_t *co = A.alloc("cont-out", 48, 1, guard::END, 0x61), *ct = A.alloc("cont-tag", 16, 1, guard::END, 0x62);
+                                uint8_t *cc = A.alloc("cont-ctx", sizeof(isal_gcm_context_data), 16, guard::END, 0x63);
+                                uint8_t *ci = A.alloc("cont-in", 48, 1, guard::END);
+                                pbt::expand(c.seed + 9, ci, 48);
+                                const ae::GcmFam *gg = g;
+                                B.outs.emplace_back(kd, 16 * (g->bits / 32 + 7));
+                                B.outs.emplace_back(co, 48);
+                                B.outs.emplace_back(ct, 16);
+                                B.continuation = [=]() {
+                                        if (!gg->oneshot[0][0]) return true;
+                                        guard::FaultInfo f2;
+                                        return guard::guarded_call(f2, [&] {
+                                                if (gg->api) ((ae::gcm_oneshot_ifn) gg->oneshot[0][0])(kd, cc, co, ci, 48, ivb, ab, c.aad_len, ct, 16);
+                                                else ((ae::gcm_oneshot_fn) gg->oneshot[0][0])(kd, cc, co, ci, 48, ivb, ab, c.aad_len, ct, 16);
+                                        });
+                                };
+                        }
                 } else if (sub == "precomp") {
                         fn = g->precomp;
                         args[0] = (uint64_t) kd;
                         nargs = 1;
                         exitclass = "precomp";
+                        {
+                                // later behaviour of the key data: a one-shot encryption with it
+                                uint8_t *co = A.alloc("cont-out", 48, 1, guard::END, 0x61), *ct = A.alloc("cont-tag", 16, 1, guard::END, 0x62);
+                                uint8_t *cc = A.alloc("cont-ctx", sizeof(isal_gcm_context_data), 16, guard::END, 0x63);
+                                uint8_t *ci = A.alloc("cont-in", 48, 1, guard::END);
+                                pbt::expand(c.seed + 9, ci, 48);
+                                const ae::GcmFam *gg = g;
+                                B.outs.emplace_back(kd, 16 * (g->bits / 32 + 7));
+                                B.outs.emplace_back(co, 48);
+                                B.outs.emplace_back(ct, 16);
+                                B.continuation = [=]() {
+                                        if (!gg->oneshot[0][0]) return true;
+                                        guard::FaultInfo f2;
+                                        return guard::guarded_call(f2, [&] {
+                                                if (gg->api) ((ae::gcm_oneshot_ifn) gg->oneshot[0][0])(kd, cc, co, ci, 48, ivb, ab, c.aad_len, ct, 16);
+                                                else ((ae::gcm_oneshot_fn) gg->oneshot[0][0])(kd, cc, co, ci, 48, ivb, ab, c.aad_len, ct, 16);
+                                        });
+                                };
+                        }
                 } else if (sub == "init") {
                         fn = g->init;
                         args[0] = (uint64_t) kd; args[1] = (uint64_t) cd; args[2] = (uint64_t) ivb; args[3] = (uint64_t) ab; args[4] = c.aad_len;
                         nargs = 5;
                         exitclass = "aad%16=" + std::to_string(c.aad_len % 16) + (c.aad_len > 128 ? ",long" : "");
+                        {
+                                const ae::GcmFam *gg = g;
+                                uint64_t n = c.len;
+                                B.outs.emplace_back(out, n);
+                                B.outs.emplace_back(tag, 16);
+                                B.continuation = [=]() {
+                                        if (!gg->update[0][0] || !gg->finalize[0]) return true;
+                                        guard::FaultInfo f2;
+                                        return guard::guarded_call(f2, [&] {
+                                                if (gg->api) {
+                                                        ((ae::gcm_update_ifn) gg->update[0][0])(kd, cd, out, in, n);
+                                                        ((ae::gcm_final_ifn) gg->finalize[0])(kd, cd, tag, 16);
+                                                } else {
+                                                        ((ae::gcm_update_fn) gg->update[0][0])(kd, cd, out, in, n);
+                                                        ((ae::gcm_final_fn) gg->finalize[0])(kd, cd, tag, 16);
+                                                }
+                                        });
+                                };
+                        }
                 } else if (sub.compare(0, 6, "update") == 0 || sub.compare(0, 8, "finalize") == 0) {
                         if (!g->init || !g->update[dec][0]) { ctx.label("absent-entry"); return 1; }
                         bool ok = guard::guarded_call(fi, [&] {
@@ -269,11 +336,25 @@ static inline int build(const Case &c, Ops &O, guard::Arena &A, Built &B, pbt::C
                                 nargs = 5;
                                 exitclass = "carry=" + std::to_string(plen % 16 ? 1 : 0) + ",len%16=" + std::to_string(c.len % 16) + ",blocks=" +
                                             std::to_string(c.len / 16 > 50 ? 50 : c.len / 16);
+                                {
+                                        const ae::GcmFam *gg = g;
+                                        B.outs.emplace_back(out + plen, c.len);
+                                        B.outs.emplace_back(tag, 16);
+                                        B.continuation = [=]() {
+                                                if (!gg->finalize[dec]) return true;
+                                                guard::FaultInfo f2;
+                                                return guard::guarded_call(f2, [&] {
+                                                        if (gg->api) ((ae::gcm_final_ifn) gg->finalize[dec])(kd, cd, tag, 16);
+                                                        else ((ae::gcm_final_fn) gg->finalize[dec])(kd, cd, tag, 16);
+                                                });
+                                        };
+                                }
                         } else {
                                 fn = g->finalize[dec];
                                 args[0] = (uint64_t) kd; args[1] = (uint64_t) cd; args[2] = (uint64_t) tag; args[3] = c.tag_len;
                                 nargs = 4;
                                 exitclass = "carry=" + std::to_string(plen % 16 ? 1 : 0) + ",tag=" + std::to_string(c.tag_len);
+                                B.outs.emplace_back(tag, c.tag_len);
                         }
                 } else { // one-shot enc / dec [_nt]
                         fn = g->oneshot[dec][nt];
@@ -281,6 +362,8 @@ static inline int build(const Case &c, Ops &O, guard::Arena &A, Built &B, pbt::C
                         args[6] = (uint64_t) ab; args[7] = c.aad_len; args[8] = (uint64_t) tag; args[9] = c.tag_len;
                         nargs = 10;
                         exitclass = "len%16=" + std::to_string(c.len % 16) + ",blocks=" + std::to_string(c.len / 16 > 50 ? 50 : c.len / 16) + ",aad%16=" + std::to_string(c.aad_len % 16);
+                        B.outs.emplace_back(out, c.len);
+                        B.outs.emplace_back(tag, c.tag_len);
                 }
                 if (!fn) { ctx.label("absent-entry"); return 1; }
                 // the family's own precomputed hash-key area counts as GHASH key material too
@@ -308,7 +391,9 @@ static inline int build(const Case &c, Ops &O, guard::Arena &A, Built &B, pbt::C
                 memcpy(k1b, k1a.data(), k1a.size());
                 memcpy(k2b, k2a.data(), k2a.size());
                 memcpy(twb, tw.data(), 16);
-                uint8_t *in = A.alloc("in", len, 1, guard::END, 4), *out = A.alloc("out", len, 1, guard::END, 5);
+                uint8_t *in = A.alloc("in", len, 1, guard::END), *out = A.alloc("out", len, 1, guard::END, 5);
+                pbt::expand(c.seed + 8, in, len);
+                B.outs.emplace_back(out, len);
                 args[0] = (uint64_t) k2b; args[1] = (uint64_t) k1b; args[2] = (uint64_t) twb; args[3] = len; args[4] = (uint64_t) in; args[5] = (uint64_t) out;
                 nargs = 6;
                 exitclass = "len%16=" + std::to_string(len % 16 ? 1 : 0) + ",blocks%8=" + std::to_string(len / 16 % 8) + (len >= 128 ? ",bulk" : "");
